@@ -230,6 +230,16 @@ func c06statusIn(s ast.Stmt) string {
 		return ""
 	}
 	rhs := as.Rhs[0]
+	if c, ok := rhs.(*ast.CallExpr); ok {
+		// the response is built by a helper of the package: its status is the helper's literal under the call's arguments
+		if code, _, ok := c06respCall(c, env{}, 0); ok {
+			if code == "" {
+				return "?" + src(rhs)
+			}
+			return code
+		}
+		return ""
+	}
 	if u, ok := rhs.(*ast.UnaryExpr); ok && u.Op == token.AND {
 		rhs = u.X
 	}
@@ -275,6 +285,73 @@ func c06dominatingStatus(pm c06parents, s ast.Node) string {
 	return "?"
 }
 
+// c06writeOf: is call c a write of a response to the peer?  Either `X.Write(…)` itself (recv = X), or a call of a
+// package helper that (directly, or through one more helper) calls `<parameter>.Write(…)` and after that does nothing
+// that could take the handshake further (only log / close calls, at most a bare return): then recv = the argument
+// passed for that parameter.  tail=false: the helper does something else after its write (the caller reports
+// "return-unknown").
+func c06writeOf(c *ast.CallExpr, depth int) (recv string, isWrite, tail bool) {
+	if strings.HasSuffix(exprString(c.Fun), ".Write") {
+		return strings.TrimSuffix(exprString(c.Fun), ".Write"), true, true
+	}
+	fd := c06callee(c)
+	if fd == nil || depth > 2 {
+		return "", false, false
+	}
+	ns := c06paramNames(fd)
+	pm := c06parentMap(fd)
+	n := 0
+	ast.Inspect(fd.Body, func(nd ast.Node) bool {
+		ic, ok := nd.(*ast.CallExpr)
+		if !ok {
+			return true
+		}
+		r, w, t := c06writeOf(ic, depth+1)
+		if !w {
+			return true
+		}
+		n++
+		recv, isWrite, tail = "?"+r, true, t
+		for i, p := range ns {
+			if p == r && p != "" && i < len(c.Args) {
+				recv = exprString(c.Args[i])
+			}
+		}
+		// what the helper does after its write: every enclosing block up to the function body
+		for cur := ast.Node(ic); cur != nil && cur != ast.Node(fd.Body); cur = pm[cur] {
+			blk, ok := pm[cur].(*ast.BlockStmt)
+			if !ok {
+				if _, isLoop := pm[cur].(*ast.ForStmt); isLoop {
+					tail = false
+				}
+				if _, isLoop := pm[cur].(*ast.RangeStmt); isLoop {
+					tail = false
+				}
+				continue
+			}
+			idx := len(blk.List)
+			for i, st := range blk.List {
+				if st == cur {
+					idx = i
+				}
+			}
+			for _, st := range blk.List[idx+1:] {
+				if rs, ok := st.(*ast.ReturnStmt); ok && len(rs.Results) == 0 {
+					break
+				}
+				if !c06isLogCall(st) {
+					tail = false
+				}
+			}
+		}
+		return false
+	})
+	if n > 1 {
+		tail = false
+	}
+	return recv, isWrite, tail
+}
+
 func init() {
 	extractors = append(extractors, func(o *out) {
 		b := o.w("C06Refusal.lean")
@@ -300,10 +377,13 @@ func init() {
 			n := 0
 			ast.Inspect(fd.Body, func(nd ast.Node) bool {
 				c, ok := nd.(*ast.CallExpr)
-				if !ok || !strings.HasSuffix(exprString(c.Fun), ".Write") {
+				if !ok {
 					return true
 				}
-				recv := strings.TrimSuffix(exprString(c.Fun), ".Write")
+				recv, isWrite, tail := c06writeOf(c, 0)
+				if !isWrite {
+					return true
+				}
 				if recv != "response" {
 					fail("%s: a Write on %q - the answers of the server are expected to go through `response`", fn, recv)
 					return true
@@ -327,9 +407,13 @@ func init() {
 						idx = i
 					}
 				}
-				writes = append(writes, [3]string{fn, c06dominatingStatus(pm, carrier), c06after(fd, pm, blk.List, idx)})
+				next := c06after(fd, pm, blk.List, idx)
+				if !tail {
+					next = "return-unknown"
+				}
+				writes = append(writes, [3]string{fn, c06dominatingStatus(pm, carrier), next})
 				n++
-				return true
+				return false // the arguments of a write are not searched for further writes
 			})
 			if n == 0 {
 				fail("%s: no response.Write found", fn)
